@@ -67,6 +67,14 @@ def cases(tier: str):
                         for res in (("t" * n, ("ta" * n)[:n]) if n < 4 else ("t" * n,)):
                             for mc in ((1, 2) if n < 4 else (2,)):
                                 yield dict(base, res=res, mc=mc, sel=sel, is_async=False, ties=0 if n == 4 else 1)
+    # B2. selections by a string that is the TAG of node 1 and the ID of node 0 (a string is a tag first)
+    for n in (2, 3):
+        for es in shapes(n):
+            base = dict(n=n, es=[(i, j, "pos", ()) for (i, j) in es], tags={1: "n0"})
+            p = prog_of(base)
+            for sel in single_selections(p)[1:]:
+                for mc in (1, 2):
+                    yield dict(base, res="t" * n, mc=mc, sel=dict(sel, alias="tag_eq_id"), is_async=False, ties=0)
     # C. one decorated function used on several call sites
     for n in (2, 3):
         for es in shapes(n):
